@@ -36,7 +36,7 @@ MUST_REACH = {"resolutions_checked": 2000, "name_lookups_checked": 1000, "tempor
               "seed_flows": 100, "proxy_only_stripped": 30, "wrapper_caps_checked": 30, "proxy_cap_reregistrations": 30,
               "prefix_related_resolutions": 50, "regranted_names": 30, "old_urls_regranted": 20, "name_lookups_after_consumption_with_survivors": 10, "wrapper_redirects_checked": 30,
               "regions_reannounced": 50, "old_seeds_regranted": 10, "regions_registered_without_seed": 10,
-              "grid_wide_asset_urls_granted": 20, "wrapper_uniqueness_checks": 30, "clock_advances": 50}
+              "grid_wide_asset_urls_granted": 20, "wrapper_uniqueness_checks": 30, "clock_advances": 50, "seed_requests_with_adjacent_proxy_only_caps": 40}
 
 NAMES = ["Seed2", "EventQueueGet", "FetchInventory2", "GetTexture", "GetMesh2", "ViewerAsset", "UpdateScriptAgent",
          "ObjectMedia", "SimulatorFeatures", "UploadBakedTexture"]
@@ -221,13 +221,31 @@ def check_wrapper_stands_for(ctx, rig, name, granted_url, wrapper_url, wit):
 def seed_flow(ctx, rng, rig, m, regions, sessions, wit):
     """A Seed request (viewer -> sim) and response (sim -> viewer) through the real event manager."""
     ctx.count("seed_flows")
+    if rng.random() < 0.4:
+        # several addons each providing a capability of their own
+        for name in rng.sample(PROXY_NAMES, rng.randint(2, 3)):
+            prev = m.newest(name)
+            if prev is None or prev[1] != CapType.PROXY_ONLY:
+                try:
+                    m.add(name, m.region.register_proxy_cap(name), CapType.PROXY_ONLY)
+                except Exception as e:
+                    ctx.violation("register-proxy-cap-raises", "register_proxy_cap raised", dict(wit, exc=repr(e)[:200]))
+                    return
     seed_url = m.newest("Seed")[0]
     proxy_only = [n for (n, u, t) in m.grants if t == CapType.PROXY_ONLY]
     proxy_only_names = sorted(set(proxy_only))
     requested = rng.sample(NAMES, rng.randint(1, len(NAMES)))
-    for n in proxy_only_names:
-        if rng.random() < 0.8:
-            requested.insert(rng.randrange(len(requested) + 1), n)
+    if len(proxy_only_names) >= 2 and rng.random() < 0.5:
+        # the proxy's own capabilities next to each other in the viewer's list (two or three in a row)
+        at = rng.randrange(len(requested) + 1)
+        run = list(proxy_only_names)
+        rng.shuffle(run)
+        requested[at:at] = run
+        ctx.count("seed_requests_with_adjacent_proxy_only_caps")
+    else:
+        for n in proxy_only_names:
+            if rng.random() < 0.8:
+                requested.insert(rng.randrange(len(requested) + 1), n)
     flow = make_flow(seed_url, method=b"POST", content=llsd.format_xml(requested))
     rig.flow_context.to_proxy_queue.log.clear()
     rig.send_event("request", flow)
